@@ -40,8 +40,12 @@ def lit_features(e):
     body = e.get("body", [])
     feats = []
     if e.get("kind") == "longlit":
-        if "CR" in body:
-            feats.append("contains CR")
+        # a CR that is not the first half of a CR LF pair
+        lone = any(c == "CR" and (i + 1 >= len(body) or body[i + 1] != "LF") for i, c in enumerate(body))
+        if lone:
+            feats.append("lone CR")
+        elif "CR" in body:
+            feats.append("CRLF pairs only")
     elif e.get("kind") == "strlit":
         raw_nl = any(c in ("LF", "CR") and (i == 0 or body[i - 1] != "BS") for i, c in enumerate(body))
         if raw_nl:
